@@ -605,6 +605,24 @@ func (e *Env) evalCall(n *ast.CallExpr) Term {
 			e.fail(n, "%s(%d, %d): index out of range", name, k, i)
 		}
 		return list[i]
+	case "lastres", "lastarg":
+		// result / argument i of the call that was executed last (for ghost_at / assert_at anchored at a call)
+		iv, ok := e.info.Types[n.Args[0]]
+		if !ok || iv.Value == nil {
+			e.fail(n, "%s(i): i must be a constant", name)
+		}
+		i64, _ := constant.Int64Val(iv.Value)
+		if e.st.lastCall == nil {
+			e.fail(n, "%s(): no call has been executed on this path", name)
+		}
+		list := e.st.lastCall.Results
+		if name == "lastarg" {
+			list = e.st.lastCall.Args
+		}
+		if int(i64) < 0 || int(i64) >= len(list) {
+			e.fail(n, "%s(%d): index out of range (the call has %d)", name, i64, len(list))
+		}
+		return list[i64]
 	case "allocmark":
 		return e.st.alloc
 	case "allocatedid":
